@@ -723,9 +723,10 @@ def _evaluate(tagss, root: str) -> list[dict]:
         fail("mock-client-props-order", mnames, names)
     elif [p[1] for p in mock["props"]] != [p[1] for p in proto["props"]]:
         fail("mock-client-prop-types-differ", mock["props"], proto["props"])
-    # (5) the body of MockAPIClient.__init__ is empty iff there is no operation; the file compiles otherwise
-    if mock["initBodyEmpty"] != (len(tagss) == 0):
-        fail("mock-init-body-emptiness", mock["initBodyEmpty"], len(tagss) == 0)
+    # (5) the body of MockAPIClient.__init__ is never empty; the file compiles
+    # F31 repaired: the body is never empty (a document without operations gets `pass`)
+    if mock["initBodyEmpty"]:
+        fail("mock-client-empty-init", "empty __init__ body", "a body (at least `pass`)")
     if not mk["compiles"]:
         if mock["initBodyEmpty"]:
             fail("mock-client-empty-init", mk["error"], "mock_client.py compiles")
